@@ -342,10 +342,15 @@ def run_case(case) -> Outcome:  # noqa: C901, PLR0912, PLR0915
             out.violate("d", f"C11.d/outer-scope-completed-before-stream-scope/{unstarted}/{mode}/{consume}", f"{obs['events']}")
         if create_in in ("X", "XX") and obs["events"].count("X_completed") != 1:
             out.violate("d", f"C11.d/creating-scope-not-completed/{unstarted}/{mode}/{consume}", f"{obs['events']}")
+    # errors reported to THIS case's loop are case-local and deterministic. Unraisable errors from finalisers
+    # (ScopeMetrics.__del__ of a never-completed scope) depend on when the garbage collector runs and may belong to an
+    # earlier case: they are only counted; the never-completed scope itself is judged above.
     errs = [e for e in res.errors]
     unr = env.unraisable()[unraisable_before:]
-    if errs or unr:
-        msg = "; ".join(f"{e.get('message')}: {e.get('exception')!r}" for e in errs) + " | " + "; ".join(repr(u.exc_value) for u in unr)
+    if unr:
+        out.counts["unraisable_finaliser_errors_seen"] = len(unr)
+    if errs:
+        msg = "; ".join(f"{e.get('message')}: {e.get('exception')!r}" for e in errs)
         out.violate("d", f"C11.d/errors-reported/{unstarted}/{mode}/{consume}", msg[:500])
     classes = []
     if consume != "same":
